@@ -250,8 +250,8 @@ func (b *backend) pathCRLWrite(ctx context.Context, req *logical.Request, d *fra
 		config.Expiry = expiry
 	}
 
-	oldDisable := config.Disable
-	if disableRaw, ok := d.GetOk("disable"); ok {
+	disableRaw, disableSet := d.GetOk("disable")
+	if disableSet {
 		config.Disable = disableRaw.(bool)
 	}
 
@@ -271,8 +271,8 @@ func (b *backend) pathCRLWrite(ctx context.Context, req *logical.Request, d *fra
 		config.OcspExpiry = expiry
 	}
 
-	oldAutoRebuild := config.AutoRebuild
-	if autoRebuildRaw, ok := d.GetOk("auto_rebuild"); ok {
+	autoRebuildRaw, autoRebuildSet := d.GetOk("auto_rebuild")
+	if autoRebuildSet {
 		config.AutoRebuild = autoRebuildRaw.(bool)
 	}
 
@@ -284,8 +284,8 @@ func (b *backend) pathCRLWrite(ctx context.Context, req *logical.Request, d *fra
 		config.AutoRebuildGracePeriod = autoRebuildGracePeriod
 	}
 
-	oldEnableDelta := config.EnableDelta
-	if enableDeltaRaw, ok := d.GetOk("enable_delta"); ok {
+	enableDeltaRaw, enableDeltaSet := d.GetOk("enable_delta")
+	if enableDeltaSet {
 		config.EnableDelta = enableDeltaRaw.(bool)
 	}
 
@@ -339,10 +339,15 @@ func (b *backend) pathCRLWrite(ctx context.Context, req *logical.Request, d *fra
 	// Note this only affects/happens on the main cluster node, if you need to
 	// notify something based on a configuration change on all server types
 	// have a look at crlBuilder::reloadConfigIfRequired
-	if oldDisable != config.Disable || (oldAutoRebuild && !config.AutoRebuild) || (oldEnableDelta != config.EnableDelta) {
+	if disableSet || (autoRebuildSet && !config.AutoRebuild) || enableDeltaSet {
 		// It wasn't disabled but now it is (or equivalently, we were set to
 		// auto-rebuild and we aren't now or equivalently, we changed our
 		// mind about delta CRLs and need a new complete one), rotate the CRLs.
+		//
+		// We do not compare with the previously stored configuration here:
+		// it is stored before the CRLs are rebuilt, so when an earlier attempt
+		// failed (or died) during the rebuild, its retry would see no change,
+		// skip the rebuild and report success with stale CRLs in place.
 		warnings, crlErr := b.crlBuilder.rebuild(sc, true)
 		if crlErr != nil {
 			switch crlErr.(type) {
